@@ -199,6 +199,15 @@ def unit_json(U):
         r2 = it.call(H._jsonify, [["extra", sv("e")]], {})
         r3 = it.call(H._unjsonify, [sv("text")], {"isattributes": True})
         r4 = it.call(H._unjsonify, [sv("text2")], {})
+        n0 = len(log)
+        # decoding the same stored text twice gives two independent objects (no cache shared between Features)
+        it.contracts[simplejson.loads] = lambda interp, a_, k_: (log.append(("loads", a_, k_)), {"k": [a_[0]]})[1]
+        t = sv("text3")
+        r5 = it.call(H._unjsonify, [t], {"isattributes": True})
+        r6 = it.call(H._unjsonify, [t], {"isattributes": True})
+        it.contracts[simplejson.loads] = lambda interp, a_, k_: (log.append(("loads", a_, k_)), {"<loaded>": a_[0]})[1]
+        ctx.stash.update(r5=r5, r6=r6, nloads=len(log) - n0)
+        del log[n0:]
         return a, r1, r2, r3, r4, list(log)
 
     def replay(m):
@@ -211,6 +220,19 @@ def unit_json(U):
         if H._unjsonify(H._jsonify(["x", "y"])) != ["x", "y"]:
             return {"inputs": ["x", "y"], "violates": True}
         return {"violates": False}
+    def replay_fresh(m):
+        f = F.Feature(seqid="c", featuretype="gene", start=1, end=5, attributes={"ID": ["g"], "Note": ["n1"]})
+        db = gffutils.create_db([f], ":memory:")
+        a = db["g"]
+        a.attributes["Note"].append("edited")
+        b = db["g"]
+        t = H._jsonify(f.attributes)
+        x = H._unjsonify(t, isattributes=True)
+        x["Note"].append("edited")
+        y = H._unjsonify(t, isattributes=True)
+        obs = {"refetched Note": list(b.attributes["Note"]), "second decode Note": list(y["Note"])}
+        return {"inputs": "decode, edit a value list in place, decode the same text again", "expected": {"refetched Note": ["n1"], "second decode Note": ["n1"]}, "observed": obs,
+                "violates": obs["refetched Note"] != ["n1"] or obs["second decode Note"] != ["n1"]}
     for p in U.explore(run, it):
         ok = False
         if p.kind == "return":
@@ -219,6 +241,11 @@ def unit_json(U):
             ok = (len(lg) == 4 and lg[0][0] == "dumps" and lg[0][1][0] is a._d and lg[0][2] == compact and lg[1][0] == "dumps" and lg[1][2] == compact
                   and isinstance(lg[1][1][0], list) and lg[2][0] == "loads" and lg[3][0] == "loads"
                   and isinstance(r3, Attributes) and list(r3._d.keys()) == ["<loaded>"] and r4 == {"<loaded>": lg[3][1][0]})
+        st = p.ctx.stash
+        fresh = (p.kind == "return" and isinstance(st.get("r5"), Attributes) and isinstance(st.get("r6"), Attributes) and st["r5"] is not st["r6"] and st["r5"]._d is not st["r6"]._d
+                 and st["r5"]._d.get("k") is not st["r6"]._d.get("k") and st.get("nloads") == 2)
+        U.prove("C17.json.fresh#p%d" % p.index, "every _unjsonify(text, isattributes=True) decodes anew: two decodes of the same text share no container (editing one Feature's value list cannot reach another)",
+                [], z3.BoolVal(bool(fresh)), {}, replay=replay_fresh)
         U.prove("C17.json#p%d" % p.index, "_jsonify(Attributes) == dumps(x._d, compact); _jsonify(other) == dumps(x, compact); _unjsonify(s, True) == Attributes(loads(s)); _unjsonify(s) == loads(s)",
                 [], z3.BoolVal(bool(ok)), {}, replay=replay)
     # lemma: identity under A-J
